@@ -10,8 +10,10 @@ reference destructs the listener and the socket. Which config's tls.Config answe
 `activeTlsConf`: set by the constructor, NOT changed by later `addState`s, replaced by "another" entry of the
 map only when the active one is cancelled. (The comment in ListenQUIC says the latest config is returned;
 the code returns the OLDEST open one — `active_is_oldest_open`. Either is "the old or the new config".)
-"Another" is the first key Go's map iteration yields: with more than one left it is the runtime's choice;
-the harness does not generate such lines (`QOps.ok`), the model takes the oldest.
+"Another" is the first key Go's map iteration yields: with more than one left (the oldest of three open
+listeners is closed) it is the runtime's choice. The deterministic model (`QState`, lines satisfying `qOk`)
+takes the oldest; the general model (`QPoss`) carries the SET of configs that may be active and is what
+the driver runs: `possible_active_is_open` is what holds in general.
 -/
 namespace CaddyModel.C02
 
@@ -159,5 +161,117 @@ theorem latest_config_does_not_win :
 
 example : qOk QState.init [] [.listen 0, .listen 1, .listen 2, .dial, .close 1, .dial, .close 0, .dial, .close 2] = true := by decide
 example : qOk QState.init [] [.listen 0, .listen 1, .listen 2, .close 0] = false := by decide
+
+/-! ### in general: the set of configs that may be active -/
+
+structure QPoss where
+  opened : List Nat
+  poss : List Nat     -- the configs `activeTlsConf` may be, over all choices of Go's map iteration
+deriving DecidableEq, Repr
+
+def QPoss.init : QPoss := ⟨[], []⟩
+
+def qpListen (s : QPoss) (g : Nat) : QPoss :=
+  if s.opened.isEmpty then ⟨[g], [g]⟩ else ⟨s.opened ++ [g], s.poss⟩
+
+/-- if the closed config may be the active one, any of the remaining ones may become active -/
+def qpClose (s : QPoss) (g : Nat) : QPoss :=
+  ⟨s.opened.erase g, s.poss.filter (fun a => a != g) ++ (if s.poss.contains g then s.opened.erase g else [])⟩
+
+def qpStep (s : QPoss) : QOp → QPoss
+  | .listen g => qpListen s g
+  | .close g => qpClose s g
+  | .dial => s
+
+/-- fresh generations, at most three listeners open, only open listeners are closed — in any order -/
+def qpOk (s : QPoss) (used : List Nat) : List QOp → Bool
+  | [] => true
+  | .listen g :: rest => !used.contains g && s.opened.length < 3 && qpOk (qpListen s g) (g :: used) rest
+  | .close g :: rest => s.opened.contains g && qpOk (qpClose s g) used rest
+  | .dial :: rest => qpOk s used rest
+
+def qpRun (s : QPoss) : List QOp → QPoss
+  | [] => s
+  | op :: rest => qpRun (qpStep s op) rest
+
+structure QPInv (s : QPoss) (used : List Nat) : Prop where
+  sub : ∀ a, a ∈ s.poss → a ∈ s.opened
+  some : s.opened ≠ [] → s.poss ≠ []
+  usedSub : ∀ g, g ∈ s.opened → g ∈ used
+
+theorem QPInv.step {s : QPoss} {used : List Nat} (h : QPInv s used) :
+    ∀ (op : QOp) (rest : List QOp), qpOk s used (op :: rest) = true →
+      ∃ used', QPInv (qpStep s op) used' ∧ qpOk (qpStep s op) used' rest = true
+  | .dial, rest, hk => ⟨used, h, by simpa [qpOk, qpStep] using hk⟩
+  | .listen g, rest, hk => by
+    simp only [qpOk, Bool.and_eq_true] at hk
+    refine ⟨g :: used, ?_, hk.2⟩
+    simp only [qpStep, qpListen]
+    split
+    · exact ⟨by simp, by simp, by simp⟩
+    · rename_i hne
+      have hne' : s.opened ≠ [] := fun e => hne (by simp [e])
+      refine ⟨fun a ha => List.mem_append_left _ (h.sub a ha), fun _ => h.some hne', ?_⟩
+      intro x hx
+      rcases List.mem_append.mp hx with hx | hx
+      · exact List.mem_cons_of_mem _ (h.usedSub x hx)
+      · simp at hx; subst hx; exact List.mem_cons_self
+  | .close g, rest, hk => by
+    simp only [qpOk, Bool.and_eq_true] at hk
+    refine ⟨used, ?_, hk.2⟩
+    simp only [qpStep, qpClose]
+    refine ⟨?_, ?_, fun x hx => h.usedSub x (List.mem_of_mem_erase hx)⟩
+    · intro a ha
+      rcases List.mem_append.mp ha with ha | ha
+      · have hm := List.mem_filter.mp ha
+        have hne : a ≠ g := by simpa using hm.2
+        exact (List.mem_erase_of_ne hne).mpr (h.sub a hm.1)
+      · split at ha
+        · exact ha
+        · cases ha
+    · intro hrest
+      have hop : s.opened ≠ [] := fun e => hrest (by simp [e])
+      obtain ⟨a, ha⟩ := List.exists_mem_of_ne_nil _ (h.some hop)
+      by_cases hag : a = g
+      · subst hag
+        have : s.poss.contains a = true := by simpa using ha
+        simp only [this, if_true]
+        intro e
+        exact hrest (List.append_eq_nil_iff.mp e).2
+      · intro e
+        have : a ∈ s.poss.filter (fun x => x != g) := List.mem_filter.mpr ⟨ha, by simpa using hag⟩
+        rw [(List.append_eq_nil_iff.mp e).1] at this
+        cases this
+
+theorem QPInv.run : ∀ (ops : List QOp) {s : QPoss} {used : List Nat}, QPInv s used → qpOk s used ops = true →
+    ∃ used', QPInv (qpRun s ops) used'
+  | [], s, used, h, _ => ⟨used, h⟩
+  | op :: rest, s, used, h, hk => by
+    obtain ⟨used', h', hk'⟩ := h.step op rest hk
+    exact QPInv.run rest h' hk'
+
+theorem QPInv.init : QPInv QPoss.init [] := ⟨by simp [QPoss.init], by simp [QPoss.init], by simp [QPoss.init]⟩
+
+/-- **Whatever Go's map iteration picks — also when the oldest of three open listeners is closed — a
+    handshake is answered by a config whose listener is open, and by some config as long as any listener
+    is open.**  (Which one is not determined then: it need be neither the oldest nor the latest.) -/
+theorem possible_active_is_open (ops : List QOp) (hk : qpOk QPoss.init [] ops = true) :
+    (∀ a, a ∈ (qpRun QPoss.init ops).poss → a ∈ (qpRun QPoss.init ops).opened) ∧
+    ((qpRun QPoss.init ops).opened ≠ [] → (qpRun QPoss.init ops).poss ≠ []) := by
+  obtain ⟨_, h⟩ := QPInv.run ops QPInv.init hk
+  exact ⟨h.sub, h.some⟩
+
+/-- … and once a single listener is left it is the one that answers, whatever was picked before -/
+theorem possible_active_after_drain (ops : List QOp) (hk : qpOk QPoss.init [] ops = true) (g : Nat)
+    (h1 : (qpRun QPoss.init ops).opened = [g]) : ∀ a, a ∈ (qpRun QPoss.init ops).poss → a = g := by
+  intro a ha
+  have := (possible_active_is_open ops hk).1 a ha
+  rw [h1] at this
+  simpa using this
+
+-- closing the oldest of three: either of the two others may answer; closing one of them settles it
+example : (qpRun QPoss.init [.listen 0, .listen 1, .listen 2, .close 0]).poss = [1, 2] := by decide
+example : (qpRun QPoss.init [.listen 0, .listen 1, .listen 2, .close 0, .close 1]).poss = [2, 2] := by decide
+example : qpOk QPoss.init [] [.listen 0, .listen 1, .listen 2, .close 0, .dial, .close 1, .dial] = true := by decide
 
 end CaddyModel.C02
